@@ -264,6 +264,32 @@ pub fn exercise<B: Backend>(fx: &Fixture<B>, t: Target, s: &str, expensive_left:
             }
         }};
     }
+    // registered claims: every built-in validator with ordinary caller-side parameters (a realistic
+    // "now", leeways of a minute to a year); the token is the hostile input, not the parameters
+    if matches!(t, Target::TokLocalClaims | Target::TokPublicClaims) {
+        use paseto_core::validation::Validate;
+        use paseto_json::{ForAudience, ForSubject, FromIssuer, HasExpiry, Time};
+        let now = paseto_json::jiff::Timestamp::from_second(1_790_000_000).unwrap();
+        macro_rules! with {
+            ($v:expr) => {{
+                if t == Target::TokLocalClaims {
+                    if let Ok(tok) = s.parse::<EncryptedToken<B, RegisteredClaims, ()>>() {
+                        let _ = tok.decrypt_with_aad(&fx.local, b"", &$v).is_ok();
+                    }
+                } else if let Ok(tok) = s.parse::<SignedToken<B, RegisteredClaims, ()>>() {
+                    let _ = tok.verify_with_aad(&fx.public, b"", &$v).is_ok();
+                }
+            }};
+        }
+        with!(Time::valid_at(now));
+        with!(Time::valid_now());
+        for secs in [1u64, 60, 3600, 86400 * 366] {
+            with!(Time::valid_at(now).with_leeway(std::time::Duration::from_secs(secs)));
+            with!(Time::valid_now().with_leeway(std::time::Duration::new(secs, 999_999_999)));
+        }
+        with!(HasExpiry.and_then(ForSubject("")).and_then(FromIssuer("i")).and_then(ForAudience("a")));
+        with!(vec![Time::valid_at(now).with_leeway(std::time::Duration::from_secs(60))]);
+    }
     match t {
         Target::TokLocalVec => token!(EncryptedToken<B, Raw, Vec<u8>>, &fx.local, decrypt_with_aad, &nv_raw),
         Target::TokLocalUnit => token!(EncryptedToken<B, Raw, ()>, &fx.local, decrypt_with_aad, &nv_raw),
@@ -886,6 +912,48 @@ pub fn backend<B: Backend>(opts: &Opts, rep: &mut Report) {
                 let tok = join_token(&format!("v{}.local.", B::VER), &body, &footer);
                 for t in [Target::TokLocalVec, Target::TokLocalJson, Target::TokLocalClaims, Target::TokLocalUnit] {
                     run(rep, t, "valid-tag-odd-length", &tok, &mut expensive_left);
+                }
+            }
+        }
+        // validly sealed tokens whose claims are hostile JSON: extreme and malformed timestamps in exp / nbf /
+        // iat, wrong types, huge strings (the issuer of a token is not necessarily the party validating it)
+        {
+            const TS: &[&str] = &[
+                "9999-12-30T22:00:00.999999999Z", "9999-12-30T22:00:00Z", "9999-12-30T21:59:30Z", "9999-12-30T21:00:01Z", "9999-12-29T22:00:00Z", "9998-12-30T22:00:00Z",
+                "-009999-01-02T01:59:59Z", "-009999-01-02T02:00:30Z", "-009999-01-02T03:00:00Z", "-009999-01-03T01:59:59Z", "-009998-01-02T01:59:59Z",
+                "0000-01-01T00:00:00Z", "0001-01-01T00:00:00Z", "1970-01-01T00:00:00Z", "1969-12-31T23:59:59.999999999Z", "2026-09-21T00:00:00Z", "2026-09-22T11:33:20Z",
+                "9999-12-31T23:59:59Z", "9999-12-30T23:00:00+01:00", "9999-12-31T21:00:00+23:00", "-009999-01-01T00:00:00-23:59", "2016-12-31T23:59:60Z", "2039-01-01T00:00:00+00:00",
+                "10000-01-01T00:00:00Z", "2039-01-01 00:00:00Z", "2039-01-01", "", "0",
+            ];
+            let kl = KeyPair::<B>::Local(fx.local.clone());
+            let kpub = KeyPair::<B>::Public(fx.secret.clone(), fx.public.clone());
+            let mut texts: Vec<String> = vec![];
+            for ts in TS {
+                for member in ["exp", "nbf", "iat"] {
+                    texts.push(format!("{{\"{member}\":\"{ts}\"}}"));
+                }
+                texts.push(format!("{{\"exp\":\"{ts}\",\"nbf\":\"{ts}\",\"iat\":\"{ts}\",\"sub\":\"\"}}"));
+            }
+            for (a, b) in [(0usize, 6usize), (6, 0), (2, 7), (16, 15), (15, 16)] {
+                texts.push(format!("{{\"exp\":\"{}\",\"nbf\":\"{}\"}}", TS[a], TS[b]));
+            }
+            texts.extend(["{\"exp\":253402300799}", "{\"exp\":null,\"nbf\":null}", "{\"exp\":{\"secs\":1}}", "{\"sub\":null,\"iss\":7}", "{}", "[]", "null", "{\"exp\":\"9999-12-30T22:00:00Z\",\"exp\":\"2000-01-01T00:00:00Z\"}"].map(String::from));
+            for (ti, text) in texts.iter().enumerate() {
+                idx += 1;
+                if !opts.mine_sys(idx) {
+                    continue;
+                }
+                if B::VER == 1 && ti % 3 != 0 {
+                    continue;
+                }
+                if let Ok(tok) = kl.seal(text.as_bytes(), b"", b"") {
+                    run(rep, Target::TokLocalClaims, "valid-tag-hostile-claims", &tok, &mut expensive_left);
+                }
+                if let Ok(tok) = kl.seal(text.as_bytes(), b"{}", b"") {
+                    run(rep, Target::TokLocalJson, "valid-tag-hostile-claims", &tok, &mut expensive_left);
+                }
+                if let Ok(tok) = kpub.seal(text.as_bytes(), b"", b"") {
+                    run(rep, Target::TokPublicClaims, "valid-tag-hostile-claims", &tok, &mut expensive_left);
                 }
             }
         }
